@@ -17,13 +17,15 @@ func init() {
 		Explanation: "C25.a INIT: every CDCIndexedEventGroup that db.CDCStreamer installs as its pending group after construction carries the current log entry's index — the argument of Reset, or the previous group's Index in CommitHook (one log entry may commit more than once); the group is handed to the out channel on every commit with events (a non-blocking send that can discard the group is reported). " +
 			"C25.b DOM: in cdc.Service.leaderLoop the high watermark is stored only after sink.Write returned nil for that batch and with that batch's index; FIFO.DeleteRange is called only with a value read from the high watermark (leader ticker) or received from the leader (follower); writeToBatcher skips a group only when its index is non-zero and <= the high watermark. " +
 			"C25.c ORD: on a snapshot sync request the channel handed over by the store is closed only after the flush marker's batch was acknowledged (its flush channel fired) or the service is shutting down. " +
-			"C25.d TABLE: the FIFO key of a batch is the maximum Index over its groups (mainLoop), and store.fsmApply calls CDCStreamer.Reset(l.Index) before CommandProcessor.Process on every path where CDC is enabled.",
+			"C25.d TABLE: the FIFO key of a batch is the maximum Index over its groups (mainLoop), and store.fsmApply calls CDCStreamer.Reset(l.Index) before CommandProcessor.Process on every path where CDC is enabled. " +
+			"C25.e DECIDE: cdc.HTTPSink.Write — whose nil error lets the leader advance the high watermark and every node prune the batch — is interpreted over {request built, round trip ok, status ∈ {200,202,204,301,404,429,500,503}}: it reports success only for a request that was sent and answered 200/202 (other 2xx either way), an error for every other status.",
 		NotCovered: []string{"delivery across restarts and leader changes (needs executions)", "one log index spanning two batches: the FIFO ignores the second batch because its key is not above the highest key (observed, not decidable by a structural rule)"},
 		Run:        runC25,
 	})
 }
 
 func runC25(c *core.Ctx) {
+	c25e(c)
 	c25Reregister(c)
 	// C25.a
 	groups := 0
